@@ -9,7 +9,8 @@ LEVEL = "model_checking"
 RULE = ("on the state graph of C11 with signature support: for EVERY reachable key state (replayed from its witness history), EVERY extension list E of the key's "
         "fixed pattern using only free slots (each free slot absent / v1 / v2) and EVERY message of {0,1,r-1,r,r+1,2^256-1,filler}: sign and sign_precomputed "
         "(and attrs=NULL for the key's own pattern) must verify under verify and verify_precomputed; negative space, each alone: a message different mod r, m+r "
-        "(must verify alike), EVERY other list of the alphabet, lists that set a hidden or differently-fixed slot, a0+G1, a1+G2, and a signature made by a key of "
+        "(must verify alike), EVERY other list of the alphabet (per slot absent / v1 / v2 / v1 with omitFromKeys set - the flag is not part of the statement, the id is), "
+        "the signed list with its flags set differently (must verify), lists that set a hidden or differently-fixed slot, a0+G1, a1+G2, and a signature made by a key of "
         "another pattern. state = (key state, E, message); non-trivial = message > 1")
 ASSUMPTIONS = ["messages are scalars in Z_r: m and m+r are the same message", "a list entry with value 0 mod r is the same as an absent entry"]
 
@@ -37,18 +38,24 @@ def extension_lists(pattern, names):
 
 
 def resolve(E, vals):
+    """[(idx, id, marked)]: a marked entry carries omitFromKeys, which signing and verification must ignore"""
     out = []
     for i, c in E:
         if isinstance(c, (tuple, list)):
-            out.append((i, int(c[1])))
+            out.append((i, int(c[1]), False))
         else:
-            out.append((i, vals[c]))
+            out.append((i, wk.entry_value(c, vals), wk.is_hidden(c)))
     return out
+
+
+def remark(pairs, how):
+    """the same attribute list with the omitFromKeys flags set differently (all / none / alternating)"""
+    return [(p[0], p[1], {"all": True, "none": False, "alt": bool(k % 2 == 0)}[how]) for k, p in enumerate(pairs)]
 
 
 def all_lists(l, names):
     out = []
-    for combo in itertools.product([None] + list(names), repeat=l):
+    for combo in itertools.product([None] + list(names) + [wk.MARK + names[0]], repeat=l):
         out.append([[i, c] for i, c in enumerate(combo) if c is not None])
     return out
 
@@ -80,7 +87,7 @@ def verify(W, pairs, sig, m, mode="direct"):
 
 
 def canon(pairs):
-    return {i: v % ref.r for i, v in pairs if v % ref.r}
+    return {p[0]: p[1] % ref.r for p in pairs if p[1] % ref.r}
 
 
 def eval_case(case):
@@ -101,6 +108,16 @@ def eval_case(case):
             if not verify(W, pairs, sig, m, vm):
                 msgs.append("signature (%s) on m=%x for %s by key %s does not verify (%s)" % (mode, m, E, wk.pat_str(pat), vm))
     sig = sigs["direct"]
+    if case.get("negatives") and pairs:
+        # the omitFromKeys flag of a list entry is not part of the signed statement: any flagging verifies, and signing under a
+        # flagged list gives a signature for the same list
+        for how in ("all", "alt"):
+            for vm in ("direct", "pre"):
+                if not verify(W, remark(pairs, how), sig, m, vm):
+                    msgs.append("signature for %s does not verify (%s) when the verifier's list has omitFromKeys set (%s)" % (E, vm, how))
+        s3 = sign(W, key, remark(pairs, "all"), m, "direct")
+        if not verify(W, pairs, s3, m):
+            msgs.append("signature made with a list whose entries have omitFromKeys set does not verify for %s" % E)
     if case.get("negatives"):
         for m2, same in ((m + 1, False), ((m + ref.r) % 2**256 if m + ref.r < 2**256 else (m - ref.r) % 2**256, True), (m ^ (1 << 200), False)):
             same = (m2 % ref.r) == (m % ref.r)
